@@ -142,6 +142,7 @@ func PutTokenizer(t *Tokenizer) {
 func (t *Tokenizer) Reset() {
 	// Clear input reference to allow garbage collection
 	t.input = nil
+	t.colMemoValid = false
 
 	// Reset position tracking
 	t.pos = NewPosition(1, 0)
